@@ -180,11 +180,16 @@ Proof. exact sdoc_fuel_suffices. Qed.
 
 (** a subscription served over a WebSocket connection (subscribe once, then every event of the
     source stream executes the selection set on the subscription type), same transcription, same
-    limits; no discipline theorem for this program (a forged pointer would be reported by the check) *)
+    limits *)
 Theorem C13_feature_subscription_eq_partial : forall S F G fuel events d,
   schema_ok S = true -> subset F G = true ->
   run fixed S F [] (ssub_prog fuel events d) = run fixed (erase S F) G [] (ssub_prog fuel events d).
 Proof. exact subscription_eq. Qed.
+
+(** the subscription program is disciplined as well *)
+Theorem C13_subscription_consumer_disciplined : forall fx S F fuel events d,
+  exists r, snd (run fx S F [] (ssub_prog fuel events d)) = Done r.
+Proof. exact ssub_prog_disciplined. Qed.
 
 (** request feature-set plumbing as the code does it ([ws_effective], FeaturesSpec.v): a WebSocket
     connection takes Config.Features(ctx) once, at connection_init; afterwards no change of what
@@ -424,6 +429,7 @@ Print Assumptions C13_feature_exec_eq_sets_partial.
 Print Assumptions C13_set_consumers_disciplined.
 Print Assumptions C13_selection_set_fuel_suffices.
 Print Assumptions C13_feature_subscription_eq_partial.
+Print Assumptions C13_subscription_consumer_disciplined.
 Print Assumptions C13_ws_features_fixed_at_init.
 Print Assumptions C13_C04_type_info_eq.
 Print Assumptions C13_C04_small_rule_groups.
